@@ -179,8 +179,24 @@ func DecodeBoxSR(startPos uint64, sr bits.SliceReader) (Box, error) {
 	if err != nil {
 		return nil, fmt.Errorf("decode %s pos %d: %w", h.Name, startPos, err)
 	}
+	if err = checkDecodedSize(h, b); err != nil {
+		return nil, fmt.Errorf("decode %s pos %d: %w", h.Name, startPos, err)
+	}
 
 	return b, nil
+}
+
+// checkDecodedSize checks that the decoded box accounts for exactly the bytes announced in its header,
+// so that no trailing bytes are dropped and no missing bytes are invented when the box is written again.
+func checkDecodedSize(h BoxHeader, b Box) error {
+	if h.Name == "mdat" {
+		return nil // mdat may be truncated or lazily read
+	}
+	size := b.Size()
+	if size != h.Size && size != h.Size-uint64(h.Hdrlen)+boxHeaderSize {
+		return fmt.Errorf("box size %d does not match size of decoded content %d", h.Size, size)
+	}
+	return nil
 }
 
 // DecodeHeaderSR - decode a box header (size + box type + possible largeSize) from sr
